@@ -395,6 +395,18 @@ def run(ctx):
                 sweep.append([req_run(d) for d in DEFS] + [req_run("let a = 1"), req_run(fail), req_run(c1), req_run(c2),
                                                            req_run(":resume"), req_run(":abort"), req_run("f(20)")])
     search(ctx, exe, sweep, "stop-sweep")
+    # (b'') a command that only LOOKS at the stopped evaluation (or evaluates something unrelated) between the stop and the
+    # continuation must leave the stopped frames as they were
+    observers = [":type 1 + 2", ":type g(1)", ":type 1 / 0", ":type nosuch", ":locals", ":stack", ":fvalues", ":fstmts", ":test t_ok",
+                 ":test t_bad", ":doc f", ":source f", ":globals", "1 + 1", "let zz = 5", "f(3)", ":parse 1 +", ":search pr"]
+    fails = FAIL_CALL if ctx.thorough else rng.sample(FAIL_CALL, 8) + ["looper(3)", "deep(3)"]
+    obs_sweep = []
+    for fail in fails:
+        for ob in observers:
+            for cont in (":resume", ":skip"):
+                obs_sweep.append([req_run(d) for d in DEFS] + [req_run("let a = 1"), req_run(fail), req_run(ob), req_run(cont),
+                                                               req_run(cont), req_run(":abort"), req_run("f(20)")])
+    search(ctx, exe, obs_sweep, "observer-sweep")
     # (c) random state-aware histories
     n = 6000 if ctx.thorough else 260
     hs = [gen_history(rng, i) for i in range(n)]
